@@ -183,6 +183,18 @@ func c05Header(st *types.Stat) []byte {
 	b = append(b, 0)
 	b = append(b, []byte(st.Linkname)...)
 	b = append(b, 0)
+	// the xattrs, in key order: key NUL length value
+	keys := make([]string, 0, len(st.Xattrs))
+	for k := range st.Xattrs {
+		keys = append(keys, k)
+	}
+	sort.Strings(keys)
+	for _, k := range keys {
+		b = append(b, []byte(k)...)
+		b = append(b, 0)
+		b = append(b, le64(uint64(len(st.Xattrs[k])))...)
+		b = append(b, st.Xattrs[k]...)
+	}
 	return b
 }
 
@@ -190,16 +202,47 @@ type digester interface{ Digest() digest.Digest }
 
 // c05Filter: the receiver's Filter (ReceiveOpt.Filter: handed to the differ AND to the
 // DiskWriter), selectable by code (mirrors Glue.RecvG.wf_of): 0 none; 1 umask 022; 2 ownership
-// reset to 7:8; 3 umask 027 + mtime truncated to whole seconds.
+// reset to 7:8; 3 umask 027 + mtime truncated to whole seconds; 4 reject the subtree "b" (the
+// entry and everything below it); 5 every xattr VALUE patched IN PLACE in the copy the filter is
+// given (first byte xor 0xff); 6 the xattr MAP of the copy edited (user.z deleted, user.a added)
+// and uid set to 7.
 func c05Filter(code int) fsutil.FilterFunc {
 	switch code {
+	case 4:
+		return func(p string, s *types.Stat) bool { return !(p == "b" || strings.HasPrefix(p, "b/")) }
+	case 5:
+		return func(p string, s *types.Stat) bool {
+			for _, v := range s.Xattrs {
+				if len(v) > 0 {
+					v[0] ^= 0xff
+				}
+			}
+			return true
+		}
+	case 6:
+		return func(p string, s *types.Stat) bool {
+			delete(s.Xattrs, "user.z")
+			if s.Xattrs == nil {
+				s.Xattrs = map[string][]byte{}
+			}
+			s.Xattrs["user.a"] = []byte{1}
+			s.Uid = 7
+			return true
+		}
 	case 1:
-		return func(p string, s *types.Stat) bool { s.Mode &^= 0022; return true }
+		return func(p string, s *types.Stat) bool {
+			if os.FileMode(s.Mode)&os.ModeSymlink == 0 { // a symbolic link has no permission bits of its own on Linux
+				s.Mode &^= 0022
+			}
+			return true
+		}
 	case 2:
 		return func(p string, s *types.Stat) bool { s.Uid, s.Gid = 7, 8; return true }
 	case 3:
 		return func(p string, s *types.Stat) bool {
-			s.Mode &^= 0027
+			if os.FileMode(s.Mode)&os.ModeSymlink == 0 {
+				s.Mode &^= 0027
+			}
 			s.ModTime -= s.ModTime % 1e9
 			return true
 		}
@@ -404,7 +447,10 @@ func c05Sync(ctx context.Context, dest string, lower, listB []*types.Stat, conte
 				m := fi.Mode()
 				st := fi.Sys().(*types.Stat)
 				if !m.IsDir() && m&os.ModeDevice == 0 && m&os.ModeNamedPipe == 0 && m&os.ModeSymlink == 0 && st.Linkname == "" {
-					expected++
+					// (a change the filter rejects is dropped without a request)
+					if filter == nil || filter(p, st.CloneVT()) {
+						expected++
+					}
 				}
 			}
 			return e
@@ -492,6 +538,10 @@ func runResync(in Sx) (out Sx) {
 func c02Resync(ctx context.Context, in Sx) Sx {
 	differ, order := in.L[0].Int(), in.L[1].U64()
 	A, Bl := sxEntries(in.L[2]), sxEntries(in.L[3])
+	filter := 0
+	if len(in.L) > 4 {
+		filter = in.L[4].Int()
+	}
 	work := WorkDir("c02r-")
 	defer os.RemoveAll(work)
 	dest := filepath.Join(work, "d")
@@ -522,7 +572,7 @@ func c02Resync(ctx context.Context, in Sx) Sx {
 	if err != nil {
 		return L(N(0xffff), S("walk: "+err.Error()))
 	}
-	_, _, failed1, hang := c05Sync(ctx, dest, w1, listB, contentB, differ, order, nil)
+	_, _, failed1, hang := c05Sync(ctx, dest, w1, listB, contentB, differ, order, c05Filter(filter))
 	if hang != "" {
 		return L(N(0xffff), S(hang))
 	}
@@ -533,7 +583,7 @@ func c02Resync(ctx context.Context, in Sx) Sx {
 	if err != nil {
 		return L(N(0xffff), S("walk 2: "+err.Error()))
 	}
-	reqs2, notifs2, failed2, hang := c05Sync(ctx, dest, w2, listB, contentB, 0, order, nil)
+	reqs2, notifs2, failed2, hang := c05Sync(ctx, dest, w2, listB, contentB, 0, order, c05Filter(filter))
 	if hang != "" {
 		return L(N(0xffff), S(hang))
 	}
@@ -605,6 +655,8 @@ func genRecvCases(g *Gen, kind uint64, n int, directedRelink bool) {
 	for i := 0; i < n; i++ {
 		o := TreeOpts{MaxEntries: 3 + r.Intn(12), MaxDepth: 1 + r.Intn(3), Types: r.Chance(60), HardLinks: r.Chance(35),
 			Owners: r.Chance(50), Names: names, BigFiles: r.Chance(5)}
+		xattrs := kind == 0x0501 && r.Chance(40)
+		o.Xattrs = xattrs
 		va := GenView(r, o)
 		var vb []*MNode
 		cls := "edited"
@@ -627,7 +679,9 @@ func genRecvCases(g *Gen, kind uint64, n int, directedRelink bool) {
 			cls = "from-empty"
 		}
 		c05StripX(va)
-		c05StripX(vb)
+		if kind != 0x0501 || !xattrs {
+			c05StripX(vb) // kind 0501: the source entries may carry xattrs (the header hashed covers them)
+		}
 		A, Bl := flattenView(va), flattenView(vb)
 		c05FixLinks(A)
 		c05FixLinks(Bl)
@@ -712,7 +766,12 @@ func genRecvCases(g *Gen, kind uint64, n int, directedRelink bool) {
 			order = 1 + uint64(r.Intn(1000))
 		}
 		if kind == 0x0204 {
-			if !c02EmitResync(g, differ, order, A, Bl, cls) {
+			filter := 0
+			if r.Chance(35) {
+				filter = 1 + r.Intn(4)
+				cls += "+filter"
+			}
+			if !c02EmitResyncF(g, differ, order, filter, A, Bl, cls) {
 				skipped++
 			}
 			continue
@@ -721,7 +780,7 @@ func genRecvCases(g *Gen, kind uint64, n int, directedRelink bool) {
 		if kind == 0x0501 && r.Chance(25) {
 			// the receiver's Filter (differ + DiskWriter): the disk gets the rewritten stat, the
 			// notification and the hashed header keep the stat as sent
-			in = L(NI(differ), NI(mode), N(order), entriesSx(A), entriesSx(Bl), NI(1+r.Intn(3)))
+			in = L(NI(differ), NI(mode), N(order), entriesSx(A), entriesSx(Bl), NI(1+r.Intn(6)))
 			cls += "+filter"
 		}
 		out := runRecvAbs(in)
@@ -943,9 +1002,16 @@ func c05LinkMeta(g *Gen, kind uint64) {
 // c02EmitResync runs one two-synchronisation case (kind 0204) and emits it.  Non-trivial: the
 // first synchronisation succeeded, changed the destination listing, and left at least two entries.
 func c02EmitResync(g *Gen, differ int, order uint64, A, Bl []flatEntry, cls string) bool {
+	return c02EmitResyncF(g, differ, order, 0, A, Bl, cls)
+}
+
+func c02EmitResyncF(g *Gen, differ int, order uint64, filter int, A, Bl []flatEntry, cls string) bool {
 	fixSizes(A)
 	fixSizes(Bl)
 	in := L(NI(differ), N(order), entriesSx(A), entriesSx(Bl))
+	if filter != 0 {
+		in = L(NI(differ), N(order), entriesSx(A), entriesSx(Bl), NI(filter))
+	}
 	out := runResync(in)
 	if len(out.L) == 2 && out.L[0].Kind == 'n' && out.L[0].U64() == 0xfffe {
 		return false
@@ -1053,10 +1119,18 @@ func c05Filtered(g *Gen) {
 		}
 		return out
 	}
-	for filter := 0; filter <= 3; filter++ {
+	for filter := 0; filter <= 6; filter++ {
 		for edit := 0; edit < 5; edit++ {
 			for mode := 0; mode < 2; mode++ {
 				A, Bl := base(), clone(base())
+				if filter >= 5 || edit%2 == 1 {
+					// the source entries carry xattrs (the hashed header covers them): a filter that edits
+					// the values or the map of ITS COPY must not reach what is hashed and notified
+					Bl[0].St.Xattrs = map[string][]byte{"user.kb": {1, 2, 3}, "user.z": {0, 1, 2}}
+					Bl[1].St.Xattrs = map[string][]byte{"user.ka": {9}}
+					Bl[2].St.Xattrs = map[string][]byte{"user.z": {7, 7}}
+					Bl[3].St.Xattrs = map[string][]byte{"user.kc": {}, "user.z": {5}}
+				}
 				switch edit {
 				case 0: // directory mode edited at the source
 					Bl[0].St.Mode ^= 0050
